@@ -139,6 +139,10 @@ func checkConstraint(s string) (bool, error) {
 
 }
 func rawLoadFile(sys fs.FS, fname string, checkBC bool) (*token, error) {
+	if sys == nil {
+		// no file system given (Eval(nil, ...)): nothing can be found in it
+		return nil, fmt.Errorf("error in ReadFile: %w", os.ErrNotExist)
+	}
 	b, err := fs.ReadFile(sys, fname)
 	if err != nil {
 		return nil, fmt.Errorf("error in ReadFile: %w", err)
@@ -164,6 +168,10 @@ func rawLoadFile(sys fs.FS, fname string, checkBC bool) (*token, error) {
 }
 
 func rawLoadPackage(sys fs.FS, pkg string) (*token, error) {
+	if sys == nil {
+		// no file system given (Eval(nil, ...)): the package is simply not there
+		return nil, os.ErrNotExist
+	}
 	var matches []string
 	parts := append([]string{"vendor"}, strings.Split(pkg, "/")...)
 	for len(parts) > 0 {
